@@ -156,7 +156,7 @@ func (bkt *Bucket) checkHintWithData(chunkID int) (err error) {
 		bkt.hints.RemoveHintfilesByChunk(chunkID)
 		return
 	}
-	hintDataSize := bkt.hints.loadHintsByChunk(chunkID)
+	hintDataSize := bkt.hints.loadHintsByChunk(chunkID, size)
 	if hintDataSize < size {
 		err = bkt.buildHintFromData(chunkID, hintDataSize)
 	}
